@@ -98,3 +98,31 @@ theorem run_overcommit_transient (s : Sem) (ops : List SemOp)
     rcases ir with a | a <;> rcases hs with b | b <;> first | (left; omega) | (right; omega)
 
 end Martian.Semaphore
+
+namespace Martian.Semaphore
+
+theorem run_waitersLeMax (s : Sem) (ops : List SemOp) (h : WaitersLeMax s) :
+    WaitersLeMax (run s ops).1 := by
+  induction ops generalizing s with
+  | nil => exact h
+  | cons op ops ih => rw [run_cons]; exact ih _ (step_waitersLeMax s op h)
+
+/-- sum of holdings ≤ size for client runs whose `UpdateSize` calls stay within the size -/
+theorem grun_held_le (size : Int) (hs : 0 ≤ size) (ops : List COp)
+    (hop : ∀ op ∈ ops, op.reqNonneg) (hsz : ∀ op ∈ ops, op.sizeOK size) :
+    sumAmt (grun (G.init size) ops).1.held ≤ size ∧
+    (grun (G.init size) ops).1.sem.reserved ≤ size ∧ (grun (G.init size) ops).1.sem.cur ≤ size := by
+  have hb := grun_bounded (G.init size) ops (good_init size)
+    ⟨by simp [G.init, Sem.init], by simpa [G.init, Sem.init] using hs⟩ hop
+    (by simpa [G.init, Sem.init] using hsz)
+  obtain ⟨hg, _, hm⟩ := grun_inv (G.init size) ops (good_init size) hop
+  have hbook := hg.book
+  simp only at hbook
+  have h1 := hb.1
+  have h2 := hb.2
+  rw [hm] at h1 h2
+  simp only [G.init, Sem.init] at h1 h2
+  refine ⟨?_, h2, h1⟩
+  rw [← hbook]; exact h2
+
+end Martian.Semaphore
